@@ -24,6 +24,8 @@ type Run struct {
 	MaxLevel  int            `json:"maxlevel"`
 	Preempt   *int           `json:"preempt,omitempty"`
 	SchedFree bool           `json:"schedfree,omitempty"`
+	Named     bool           `json:"named,omitempty"`
+	Dev       *int           `json:"deviations,omitempty"`
 	NumCPU    int            `json:"numcpu,omitempty"`
 	MaxInstr  int            `json:"maxinstr,omitempty"`
 	Loop      int            `json:"loop,omitempty"`
@@ -149,9 +151,13 @@ func checkMain(repo, verif string, args []string) int {
 			continue
 		}
 		cfg := &symx.Config{Entry: r.Entry, Bounds: r.Bounds, MaxInstr: 20_000_000, LoopBudget: 5000, Solver: "z3", TimeoutMs: 60000,
-			Workers: 8, Preempt: -1, MaxLevel: r.MaxLevel, StopOnFirst: false, NumCPU: 2, SchedFree: r.SchedFree}
+			Workers: 8, Preempt: -1, MaxLevel: r.MaxLevel, StopOnFirst: false, NumCPU: 2, SchedFree: r.SchedFree, PreemptNamed: r.Named}
 		if r.Preempt != nil {
 			cfg.Preempt = *r.Preempt
+		}
+		cfg.Deviations = -1
+		if r.Dev != nil {
+			cfg.Deviations = *r.Dev
 		}
 		if r.NumCPU > 0 {
 			cfg.NumCPU = r.NumCPU
